@@ -7,13 +7,27 @@ Kernel-checked here:
   key of `purl.validType`'s table, so `purl.FromString` cannot reject a built-in package's purl for its type;
 * for ALL package lists: the package index returns a package when queried by its purl's type and name,
   returns nothing else, and each query is the corresponding filter of the indexed list.
-Not proved (covered by the harvest loop of harness/cmd/c14gen, which is testing): that `ToPURL` /
-`Ecosystem` never panic on what `Extract` returned, print∘parse idempotence of packageurl-go, non-empty
-name and location, and field preservation of the proto / SPDX / CycloneDX converters.
+* for ALL packages: the generic field copying of `binary/proto/proto.go` (model `Scalibr.ProtoPkg`) is
+  LOSSLESS — reading the record back gives the package's name, version, locations, purl, layer details,
+  source code, annotations (`C14_proto_lossless_partial`, with the two exceptions decided as
+  counterexamples) — and the SPDX / CycloneDX exporters (model `Scalibr.Sbom`) carry the purl / name /
+  version / locations of every package.
+  AUDIT NOTE. The per-field statements `C14_proto_fields`, `C14_proto_purl`, `C14_proto_list`,
+  `C14_cdx_fields` are DEFINITIONAL: they restate the Lean record builder (`rfl`). They are kept because
+  they spell out, field by field, what the model claims the Go code does; their content is the
+  correspondence stream (`proto` op of harness/cmd/c14gen against `Drivers/C14.lean`: the real
+  `proto.ScanResultToProto` on harvested and synthetic packages, every generic field compared with this
+  builder), respectively C15's stream for the SBOM model. What is stated against something other than
+  the builder: `C14_proto_lossless_partial` (against the reader `Scalibr.ProtoPkg.read`), the wrap and
+  annotation counterexamples, and `C14_spdx_fields` (against `Scalibr.Sbom.spdxRecord`, a filter).
+Not proved (exercised by the harvest / layout / accept / purlrt streams, which are testing): that the 58
+`ToPURL` / `Ecosystem` implementations never panic on what `Extract` returned and give a non-empty name and
+a location; packageurl-go's printing and parsing (idempotence; type acceptance of the data-determined purls
+of the two SBOM extractors); the ecosystem-name conversion.
 -/
 import Scalibr.Proofs.Index
 import Scalibr.Gen.Purl
-import Scalibr.Model.ProtoPkg
+import Scalibr.Spec.ProtoPkg
 import Scalibr.Model.Sbom
 namespace Scalibr.Index
 open Scalibr.Gen.Purl
@@ -77,8 +91,8 @@ namespace Scalibr.ProtoPkg
 theorem toInt32_id (x : Int) (h1 : -2147483648 ≤ x) (h2 : x < 2147483648) : toInt32 x = x := by
   unfold toInt32; omega
 
-/-- The proto record carries the package's name, version, locations (same order), extractor name,
-ecosystem, source code identifier and one annotation per annotation — verbatim, for every package. -/
+/-- (definitional, see the header) The proto record carries the package's name, version, locations (same order),
+extractor name, ecosystem, source code identifier and one annotation per annotation — verbatim, for every package. -/
 theorem C14_proto_fields {M PM : Type} (ops : Ops M PM) (pkg : Package M) :
     (packageToProto ops pkg).name = pkg.name ∧
     (packageToProto ops pkg).version = pkg.version ∧
@@ -92,7 +106,7 @@ theorem C14_proto_fields {M PM : Type} (ops : Ops M PM) (pkg : Package M) :
   unfold packageToProto sourceCodeToProto
   cases pkg.sourceCode <;> rfl
 
-/-- The proto purl is `ToPURL`'s purl, field by field (qualifiers in order), with its printed form; no
+/-- (definitional) The proto purl is `ToPURL`'s purl, field by field (qualifiers in order), with its printed form; no
 purl record iff `ToPURL` returned nil. -/
 theorem C14_proto_purl {M PM : Type} (ops : Ops M PM) (pkg : Package M) :
     (ops.toPURL pkg = none → (packageToProto ops pkg).purl = none) ∧
@@ -123,12 +137,46 @@ theorem C14_proto_annotations :
   refine ⟨rfl, rfl, rfl, fun a h1 h2 h3 => ?_⟩
   simp [annotationToProto, h1, h2, h3]
 
-/-- The result lists one record per package, in inventory order: record `i` is the conversion of package `i`. -/
+/-- (definitional: the loop is a `map`) The result lists one record per package, in inventory order: record `i`
+is the conversion of package `i`. -/
 theorem C14_proto_list {M PM : Type} (ops : Ops M PM) (pkgs : List (Package M)) :
     (packagesToProto ops pkgs).length = pkgs.length ∧
     ∀ i (h : i < pkgs.length), (packagesToProto ops pkgs)[i]? = some (packageToProto ops pkgs[i]) := by
   unfold packagesToProto
   refine ⟨by simp, fun i h => by simp [h]⟩
+
+/-- LOSSLESS. Reading the record back gives the package's generic content — name, version, locations in order,
+purl fields and printed form, layer details, source code, annotations, ecosystem, extractor — for every package
+whose annotations are the declared ones and whose layer index fits an int32. -/
+theorem C14_proto_lossless_partial {M PM : Type} (ops : Ops M PM) (pkg : Package M) (h : Representable pkg) :
+    read (packageToProto ops pkg) = genericOf ops pkg := by
+  obtain ⟨ha, hl⟩ := h
+  have hann : (pkg.annotations.map annotationToProto).map readAnnotation = pkg.annotations := by
+    rw [List.map_map]
+    conv => rhs; rw [← List.map_id pkg.annotations]
+    apply List.map_congr_left
+    intro a hm
+    rcases ha a hm with rfl | rfl | rfl | rfl <;> rfl
+  have hsrc : sourceCodeToProto pkg.sourceCode = pkg.sourceCode := by
+    unfold sourceCodeToProto; cases pkg.sourceCode <;> rfl
+  have hlay : (layerDetailsToProto pkg.layerDetails).map (fun l => (⟨l.index, l.diffID, l.command, l.inBaseImage⟩ : LayerDetails)) =
+      pkg.layerDetails := by
+    cases hld : pkg.layerDetails with
+    | none => rfl
+    | some ld =>
+      obtain ⟨h1, h2⟩ := hl ld hld
+      simp [layerDetailsToProto, toInt32_id ld.index h1 h2]
+  unfold read genericOf packageToProto
+  simp only [hann, hsrc, hlay]
+  cases ops.toPURL pkg <;> simp [purlToProto, qualifiersToProto]
+
+/-- … and `Representable` is needed: two different packages (annotation 0 vs 7; layer index 0 vs 2³²) have the
+same record. -/
+theorem C14_proto_not_injective_outside :
+    let ops : Ops Unit Unit := ⟨fun _ => none, fun _ => "", fun _ => "", fun _ => "", fun _ => none⟩
+    let p (a : Int) (i : Int) : Package Unit := ⟨"n", "1", none, [], [a], some ⟨i, "", "", false⟩, ()⟩
+    read (packageToProto ops (p 0 0)) = read (packageToProto ops (p 7 4294967296)) := by
+  decide
 
 end Scalibr.ProtoPkg
 
@@ -136,15 +184,20 @@ end Scalibr.ProtoPkg
 
 namespace Scalibr.Sbom
 
-/-- what the SPDX exporter writes for a package: nothing without a purl or with an empty purl name or
-version, else the purl's name, version and printed form -/
-def spdxRecord {Purl : Type} (ops : PurlOps Purl) (pkg : Pkg Purl) : Option (String × String × List String) :=
+/-- SPECIFICATION of what an SPDX consumer finds for a package (a filter over the inventory, not the exporter's
+loop): nothing without a purl or with an empty purl name or version; else the PURL's name and version (not
+`pkg.Name` / `pkg.Version`: SPDX packages are identified by the purl), the purl's printed form as the one
+external reference, and the locations only as the free-text summary `sourceInfo` (count + first two) — by
+design of `ToSPDX23`, so "locations verbatim" holds for CycloneDX and the proto, not for SPDX. -/
+def spdxRecord {Purl : Type} (ops : PurlOps Purl) (pkg : Pkg Purl) : Option (String × String × List String × String) :=
   match pkg.purl with
   | none => none
-  | some u => if ops.name u = "" ∨ ops.version u = "" then none else some (ops.name u, ops.version u, [ops.str u])
+  | some u =>
+    if ops.name u = "" ∨ ops.version u = "" then none
+    else some (ops.name u, ops.version u, [ops.str u], sourceInfo pkg.extractor pkg.locations)
 
 theorem spdxLoop_fields {Purl : Type} (ops : PurlOps Purl) (env : Env) (mainId : String) (inv : List (Pkg Purl)) (k : Nat) :
-    (spdxLoop ops env mainId k inv).1.map (fun p => (p.name, p.version, p.extRefs.map (·.locator))) =
+    (spdxLoop ops env mainId k inv).1.map (fun p => (p.name, p.version, p.extRefs.map (·.locator), p.sourceInfo)) =
       inv.filterMap (spdxRecord ops) := by
   induction inv generalizing k with
   | nil => rfl
@@ -157,10 +210,11 @@ theorem spdxLoop_fields {Purl : Type} (ops : PurlOps Purl) (env : Env) (mainId :
       · simp [spdxRecord, hp, he, ih]
       · simp [spdxRecord, hp, he, ih]
 
-/-- Every SPDX package record after the synthetic `main` one carries the purl name, purl version and the
-purl string of its package, in inventory order; packages without an exportable purl are the only ones left out. -/
+/-- Every SPDX package record after the synthetic `main` one carries the purl name, purl version, the purl string
+and the location summary of its package, in inventory order; packages without an exportable purl are the only
+ones left out. (Against `spdxRecord`, a filter; the exporter is a loop with a uuid counter.) -/
 theorem C14_spdx_fields {Purl : Type} (ops : PurlOps Purl) (env : Env) (cfg : SPDXConfig) (inv : List (Pkg Purl)) :
-    ((toSpdx ops env cfg inv).packages.drop 1).map (fun p => (p.name, p.version, p.extRefs.map (·.locator))) =
+    ((toSpdx ops env cfg inv).packages.drop 1).map (fun p => (p.name, p.version, p.extRefs.map (·.locator), p.sourceInfo)) =
       inv.filterMap (spdxRecord ops) := by
   unfold toSpdx
   simpa using spdxLoop_fields ops env _ inv 1
@@ -177,12 +231,14 @@ theorem cdxLoop_fields {Purl : Type} (ops : PurlOps Purl) (env : Env) (inv : Lis
     simp only [cdxLoop, cdxComponent, compFields, List.map_cons, ih]
     cases pkg.purl <;> rfl
 
-/-- Every CycloneDX component carries its package's name, version, purl string ("" without purl) and all
-its locations in order — one component per package, in inventory order. -/
+/-- (close to definitional: `cdxLoop` is a `map` with a uuid counter) Every CycloneDX component carries its
+package's name, version, purl string ("" without purl) and all its locations in order — the component list is
+always present, one component per package, in inventory order. -/
 theorem C14_cdx_fields {Purl : Type} (ops : PurlOps Purl) (env : Env) (cfg : CDXConfig) (inv : List (Pkg Purl)) :
-    ((toCdx ops env cfg inv).components.getD []).map compFields =
-      inv.map fun pkg => (pkg.name, pkg.version, (match pkg.purl with | some u => ops.str u | none => ""), pkg.locations) := by
+    ∃ cs, (toCdx ops env cfg inv).components = some cs ∧
+      cs.map compFields =
+        inv.map fun pkg => (pkg.name, pkg.version, (match pkg.purl with | some u => ops.str u | none => ""), pkg.locations) := by
   unfold toCdx
-  simpa using cdxLoop_fields ops env inv 1
+  exact ⟨_, rfl, cdxLoop_fields ops env inv 1⟩
 
 end Scalibr.Sbom
